@@ -21,7 +21,8 @@ RULE = ('A case = initial data (3 parents, 4 children, 3 tags, links) + a reader
         'attribute) and every collection that has been completely loaded and observed (len or iteration), each later read by the '
         'same session (attribute, len, iteration, and for such collections count / in / is_empty / bool) equals the first '
         'observation (an attribute the session assigned itself counts as observed with the assigned value from then on); a read may instead raise UnrepeatableReadError (or a lock error); an internal error (AssertionError, '
-        'KeyError, ...) from inside Pony is a violation. Non-trivial = the committed value behind an observed key changed after '
+        'KeyError, ...) from inside Pony is a violation; the two ends of the one-to-many relationship shown to the session agree '
+        '(child in parent.kids by iteration / in  <=>  child.p is that parent, unless the child row was deleted meanwhile). Non-trivial = the committed value behind an observed key changed after '
         'its first observation and the reader read it again afterwards or was stopped by UnrepeatableReadError; distinct by case hash.')
 ASSUMPTIONS = ['SQLite only (file database, timeout=0)',
                'sessions are interleaved at operation granularity by vlib/sched.py: one thread per session, one runnable at a time',
@@ -230,6 +231,42 @@ def writeback_strategy():
     return build()
 
 
+def move_strategy():
+    """the reader has a child in its cache without having read its parent reference; a writer MOVES the child from one
+    parent to another (both not NULL) and commits; the reader re-fetches the child and then looks at both ends of the
+    relationship (child.p, the old and the new parent's collection by iteration / in / len) in any order"""
+    st, c, rop, wop, data, layout, schedule = _strategies()
+    qidx = c21_lib.QUERY_KINDS.index
+
+    @st.composite
+    def build(draw):
+        d = draw(data)
+        k = draw(st.integers(0, 3))
+        pa, pb = draw(st.permutations([0, 1, 2]))[:2]          # old and new parent (positions in PKS['P'])
+        d['kids'] = list(d['kids'])
+        d['kids'][k] = [0, 2, 4][pa]                            # the child starts under parent pa
+        know = draw(st.sampled_from([[['attr', 1, k, 1]], [['attr', 1, k, 2]], [['query', qidx('all_K'), 0, 0]],
+                                     [['query', qidx('index_K'), k, 0]], [['attr', 1, k, 1]]]))
+        partial = draw(st.sampled_from([[], [], [['in', 0, pb, (k + 1) % 4]], [['count', 0, pb, 0]], [['attr', 0, pb, 0]],
+                                        [['empty', 0, pa, 0]]]))
+        move = ['move', k, [0, 1, 3][pb], 0]
+        refetch = draw(st.lists(st.sampled_from([['query', qidx('all_K'), 0, 0], ['query', qidx('filter_K'), 0, 0],
+                                                 ['query', qidx('get_K_kw'), k, draw(c)], ['query', qidx('kids_n'), pb, 0],
+                                                 ['query', qidx('prefetch_p'), 0, 0], ['query', qidx('pairs'), 0, 0],
+                                                 ['query', qidx('kids_of'), pb, 0]]), min_size=1, max_size=2))
+        ends = draw(st.permutations([['attr', 1, k, 0], [draw(st.sampled_from(['iter', 'iter', 'in', 'len'])), 0, pb, k],
+                                     [draw(st.sampled_from(['iter', 'in'])), 0, pa, k]]))
+        ends = list(ends)[:draw(st.integers(2, 3))]
+        reader_ops = know + partial + refetch + ends + draw(st.lists(rop, max_size=1))
+        writer_ops = [move] + draw(st.lists(wop, max_size=1))
+        actors = [{'session': {}, 'ops': reader_ops, 'end': 'commit'}, {'session': {}, 'ops': writer_ops, 'end': 'commit'}]
+        sch = [0] * (len(know) + len(partial)) + [1] * (len(writer_ops) + 1) + [0] * (len(reader_ops) + 1)
+        for pos, val in draw(st.lists(st.tuples(st.integers(0, len(sch) - 1), st.integers(0, 1)), max_size=2)):
+            sch[pos] = val
+        return {'layout': draw(layout), 'data': d, 'actors': actors, 'schedule': sch}
+    return build()
+
+
 def run(ctx):
     env = c21_lib.Env(ctx.workdir)
 
@@ -253,6 +290,8 @@ def run(ctx):
             ctx.run_test(t, {'case': batch_strategy()}, max_examples=ctx.scale(200, 400), name='batches')
         if ctx.violation is None:
             ctx.run_test(t, {'case': writeback_strategy()}, max_examples=ctx.scale(200, 400), name='writeback')
+        if ctx.violation is None:
+            ctx.run_test(t, {'case': move_strategy()}, max_examples=ctx.scale(150, 300), name='moves')
     finally:
         env.close()
 
